@@ -167,7 +167,7 @@ def main(tier):
                                                                           "_get_previous_trials_variable_count", "variables_for_factor", "variables_per_sample")],
                       "sweetpea._internal.sampling_strategy.base:Gen.decode")
     layout_lemmas(ck, budget_ms(tier))
-    run_wp(ck, ["applies_to_trial"], budget_ms(tier), prefix="C14.")
+    run_wp(ck, ["applies_to_trial", "previous_trials_variable_count"], budget_ms(tier), prefix="C14.")
     ds = SC.design_space(tier, seed(), random_n=40 if tier == "quick" else 500)
     res = runner.pmap(_eval, [(d, seed()) for d in ds], jobs=14, timeout=60)
     for d, (st, r) in zip(ds, res):
